@@ -562,6 +562,7 @@ func run(c *core.Ctx) {
 	accepted := map[string]int{}
 	rejected := map[string]int{}
 	largeOK := 0
+	generatorOK := true
 	ms := []metrics.Sample{{Name: "/gc/heap/allocs:bytes"}}
 
 	for i := 0; i < len(dir)+n; i++ {
@@ -569,12 +570,23 @@ func run(c *core.Ctx) {
 			continue
 		}
 		var cs caseT
-		if i < len(dir) {
-			cs = dir[i]
-		} else {
-			cs = randomCase(c.Rand(i), pGiant)
+		var fw []byte
+		if genErr := func() (e any) {
+			// a fault of the generator itself must never look like a fault of the repository
+			defer func() { e = recover() }()
+			if i < len(dir) {
+				cs = dir[i]
+			} else {
+				cs = randomCase(c.Rand(i), pGiant)
+			}
+			fw = cs.spec.Build()
+			return nil
+		}(); genErr != nil {
+			generatorOK = false
+			c.Note("generator fault at case %d (case skipped): %v", i, genErr)
+			c.Count("generator-faults", 1)
+			continue
 		}
-		fw := cs.spec.Build()
 		sum := sha256.Sum256(fw)
 		var mnames []string
 		for _, m := range cs.muts {
@@ -676,4 +688,7 @@ func run(c *core.Ctx) {
 		c.Floor("rejected-some-hostile-image/"+e.name, rejected[e.name] > 0)
 	}
 	c.Floor("large-declared-range-at-free-address-was-measured", largeOK > 0)
+	if !generatorOK { // only ever set to false: any shard with a generator fault makes the run inconclusive
+		c.Floor(fmt.Sprintf("generator-without-fault/shard-%d", c.Shard), false)
+	}
 }
